@@ -150,14 +150,16 @@ func (p *Prog) watchRoles() *watchRoles {
 		brokenf("watch roles: Backend.Watch implementation not found")
 	}
 	cacheRecv := w.cacheAdd.Signature.Recv().Type()
-	for _, c := range callsIn(w.watchImpl) {
-		sc := c.Common().StaticCallee()
-		if sc != nil && sc.Signature.Recv() != nil && types.Identical(sc.Signature.Recv().Type(), cacheRecv) && sc != w.cacheAdd {
-			w.cacheFind = sc
-		}
-		if g, ok := c.(*ssa.Go); ok {
-			if sc := g.Common().StaticCallee(); sc != nil {
-				w.forwarder = sc
+	for _, wf := range withAnon(w.watchImpl) {
+		for _, c := range callsIn(wf) {
+			sc := c.Common().StaticCallee()
+			if sc != nil && sc.Signature.Recv() != nil && types.Identical(sc.Signature.Recv().Type(), cacheRecv) && sc != w.cacheAdd {
+				w.cacheFind = sc
+			}
+			if g, ok := c.(*ssa.Go); ok {
+				if sc := g.Common().StaticCallee(); sc != nil {
+					w.forwarder = sc
+				}
 			}
 		}
 	}
@@ -298,35 +300,51 @@ func checkC05(p *Prog, res *Result, tier string) {
 	if revIdx < 0 {
 		res.und("C05-R1", funcName(w.forwarder), "-", "revision parameter of the forwarder not found")
 	}
-	n := 0
-	for _, c := range callsIn(w.watchImpl) {
-		g, ok := c.(*ssa.Go)
-		if !ok || g.Common().StaticCallee() != w.forwarder || revIdx < 0 {
-			continue
+	// the starts of the per-watch forwarder: go statements in Watch or in a function literal of Watch that it calls;
+	// the revision argument is traced to the frame of Watch along each call chain
+	inWatch := func(g *ssa.Function) bool {
+		for g.Parent() != nil {
+			g = g.Parent()
 		}
+		return g == w.watchImpl
+	}
+	var starts []callChain
+	if revIdx >= 0 {
+		starts = enumerateChains(p, w.watchImpl, func(ins ssa.Instruction) bool {
+			g, ok := ins.(*ssa.Go)
+			return ok && g.Common().StaticCallee() == w.forwarder
+		}, inWatch, 3)
+	}
+	n := 0
+	for _, ch := range starts {
+		g := ch.target.(*ssa.Go)
 		n++
 		construct := fmt.Sprintf("%s: resume revision of forwarder start #%d", funcName(w.watchImpl), n)
-		arg := g.Common().Args[revIdx]
+		arg := ch.up(g.Common().Args[revIdx], len(ch.fns)-1)
 		tainted := derivesFrom(p, arg, func(v ssa.Value) bool {
 			c, ok := v.(*ssa.Call)
 			return ok && (p.isCallToMethod(c, r.TSOGetRevision) || p.isCallToMethod(c, r.BGetCur))
 		})
 		if tainted {
-			res.bad("C05-R1", construct, p.pos(g.Pos()), "the live stream resumes from a revision derived from a read of the committed revision made after the cache snapshot: a write committed between the cache read and that read is in neither the replay nor the live stream")
+			res.bad("C05-R1", construct, p.pos(g.Pos()), "the live stream resumes from a revision derived from a read of the committed revision made after the cache snapshot: a write committed between the cache read and that read is in neither the replay nor the live stream ("+ch.String()+")")
 			continue
 		}
 		res.ok("C05-R1", construct, p.pos(g.Pos()), "derives from the request revision / the cache snapshot only")
 	}
 	// when cached events are replayed the resume bound must come from the cache result (newest + 1)
-	for _, c := range callsIn(w.watchImpl) {
-		g, ok := c.(*ssa.Go)
-		if !ok || g.Common().StaticCallee() != w.forwarder || revIdx < 0 || findCall == nil {
+	for _, ch := range starts {
+		g := ch.target.(*ssa.Go)
+		if findCall == nil {
 			continue
 		}
-		if !findCall.Block().Dominates(g.Block()) {
+		top := ssa.Instruction(g)
+		if len(ch.calls) > 0 {
+			top = ch.calls[0].(ssa.Instruction)
+		}
+		if !findCall.Block().Dominates(top.Block()) {
 			continue
 		}
-		arg := g.Common().Args[revIdx]
+		arg := ch.up(g.Common().Args[revIdx], len(ch.fns)-1)
 		if ph, ok := resolve(arg).(*ssa.Phi); ok {
 			construct := fmt.Sprintf("%s: resume bound after replay", funcName(w.watchImpl))
 			fromCache := false
@@ -629,7 +647,8 @@ func checkCacheBeforeBroadcast(p *Prog, r *Roles, w *watchRoles, res *Result) {
 	construct = funcName(seq) + ": only valid slots produce events"
 	okValid := false
 	for _, cf := range dominatingFacts(batchStore.Block()) {
-		if ld, ok := resolve(cf.Raw).(*ssa.UnOp); ok && cf.Want {
+		// the tested value may be the result of a helper of the sequencer that returns slot.Valid
+		if ld, ok := r.SeqRegion.origin(cf.Raw, &frame{fn: seq}).(*ssa.UnOp); ok && cf.Want {
 			if fa, ok := ld.X.(*ssa.FieldAddr); ok && fieldOf(fa) == validField {
 				okValid = true
 			}
